@@ -2,7 +2,6 @@ package validator
 
 import (
 	"bytes"
-	"reflect"
 	"strings"
 
 	jbytes "github.com/jsightapi/jsight-schema-go-library/bytes"
@@ -199,20 +198,10 @@ func checkConstraint(constr constraint.Constraint, value jbytes.Bytes) (b bool) 
 		}
 	}()
 
-	switch ct := constr.(type) {
-	case *constraint.MinLength:
-		ct.Validate(value)
-		return true
-	case *constraint.MaxLength:
-		ct.Validate(value)
-		return true
-	case *constraint.Regex:
-		ct.Validate(value)
-		return true
-	case *constraint.Enum:
-		ct.Validate(value)
-		return true
-	default:
-		panic(errors.Format(errors.ErrUnknownRule, reflect.TypeOf(constr)))
+	// Every rule of the key's type that says something about a value is asked,
+	// as for a value of that type; the others (type, nullable, …) do not.
+	if v, ok := constr.(constraint.LiteralValidator); ok {
+		v.Validate(value)
 	}
+	return true
 }
